@@ -4,6 +4,7 @@ CONSTANTS
   SpanU = {}
   MaxDirs = 0
   Handles = {1, 2, 3}
+  KVals = {}
   SkipOffPush = FALSE
 INVARIANT Report
 POSTCONDITION Consumed
